@@ -23,6 +23,7 @@ func pairMutate(v PairVariant, second bool) (func(*RunCfg), func(*RunCfg) map[st
 		// pairs are run calm and instantaneous: no fleet mode in the varied
 		// group, no latency, no client-side rate limiter, no crashes
 		c.Calm, c.FaultP, c.LatencyP, c.CrashP, c.QPS = true, 0, 0, 0, false
+		c.NoMislabel = true
 		if v.Group >= len(c.Groups) {
 			return
 		}
